@@ -302,7 +302,7 @@ def _matrix(ctx, mode):
     ctx.corr(mode + '.enc(matrix)', lines, vs + ['shared'], nontrivial=lambda i: nontrivial_aead(cases[i]))
 
 def check_C02(ctx):
-    ctx.lean(); ctx.build()
+    ctx.build(); _perm_source(ctx); ctx.lean(extra_modules=['TJ.Props.C05Gen'])
     ctx.equality_streams.update({'aead.enc': 'TJ.Props.C02.encrypt_is_spec', 'perm': 'TJ.Props.C02.permutation_is_nlfsr', 'aead.enc(matrix)': 'TJ.Props.C02.encrypt_is_spec'})
     _enc_phase(ctx, 'aead')
     _perm_stream(ctx)
@@ -1164,8 +1164,16 @@ def _perm_minic(ctx):
             break
     ctx.variants_used.add('minic')
 
+def _perm_source(ctx):
+    """TJ.Props.C05Gen: the term REGENERATED from tinyjambu-128-c32.c computes the model's perm128 for every state, key and round count"""
+    import taint
+    ok, stats = taint.regenerate(ctx, ('TJ.Props.C05Gen',))
+    ctx.extra_cov['minic'] = {k: stats.get(k) for k in ('functions', 'translated', 'errors', 'build_ok')}
+    if stats.get('errors'): ctx.broken_proofs.append('tools/c2lean.py cannot translate the current sources: ' + '; '.join(stats['errors'][:3]))
+    elif not ok: ctx.broken_proofs.append('TJ.Props.C05Gen (regenerated tinyjambu_permutation_128 = model perm128) no longer checks: ' + re.sub(r'\s+', ' ', stats.get('build_log_tail', ''))[-600:])
+
 def check_C05(ctx):
-    ctx.lean(); ctx.build()
+    ctx.build(); _perm_source(ctx); ctx.lean(extra_modules=['TJ.Props.C05Gen'])
     _perm_stream(ctx, 3000 if ctx.tier == 'quick' else 30000)
     _perm_minic(ctx)
     try:
